@@ -63,3 +63,19 @@ Proof.
               [(k_xfp, [[]; b "https"])]).
   split; [reflexivity|]. split; reflexivity.
 Qed.
+
+(* non-vacuity example, evaluated by vm_compute *)
+Lemma example_01 :
+  let tag := mk_tag (b "forwarder") (b "00112233445566778899") in
+  let r := mkq (b "GET") [] (b "example.com") (b "http://example.com/a?b") (b "10.1.2.3:4567") false 1 1 false
+             [(b "X-A", [b "1"; b "2"]); (k_connection, [b "x-b, keep-alive"]); (b "X-B", [b "gone"]);
+              (b "Keep-Alive", [b "timeout=5"]); (k_xff, [b "203.0.113.7"; b "198.51.100.1"]); (via_key, [b "1.0 alpha"])] in
+  match handle_request tag r with
+  | Passed r' =>
+      hmap_eqb (q_hdr r')
+        [(b "X-A", [b "1"; b "2"]); (k_xff, [b "203.0.113.7, 198.51.100.1, 10.1.2.3"]);
+         (via_key, [b "1.0 alpha, 1.1 forwarder-00112233445566778899"]);
+         (k_xfp, [b "http"]); (k_xfh, [b "example.com"]); (k_xfu, [b "http://example.com/a?b"]); (k_ua, [[]])] = true
+  | Refused _ => False
+  end.
+Proof. vm_compute. reflexivity. Qed.
